@@ -2,7 +2,7 @@
 import gc
 import weakref
 
-from traits.api import HasTraits
+from traits.api import HasTraits, Instance, Int
 from traits.observation.api import trait
 from traits.observation.exceptions import NotifierNotFound
 
@@ -633,6 +633,61 @@ def anytrait_cells(ctx):
         ctx.outcome("object-collected")
 
 
+    # 5b. a link that is a Property (observed through its change events;
+    # its value is never in the instance dictionary): add, let the link
+    # change, remove -> nothing left on the object the property handed out
+    from traits.api import Property as _Prop
+    for cached in (False, True):
+        case = {"anytrait": "property-link", "cached": cached}
+        ctx.case(case)
+        ctx.ev()
+        ctx.tr()
+
+        class PB(HasTraits):
+            value = Int
+
+        class PA(HasTraits):
+            src = Instance(PB)
+            prop = _Prop(Instance(PB), observe="src")
+
+            def _get_prop(self):
+                return self.src
+        if cached:
+            from traits.api import cached_property as _cp
+            PA._get_prop = _cp(PA.__dict__["_get_prop"])
+        a = PA()
+        calls = []
+
+        def hp(ev):
+            calls.append(ev.name)
+        a.observe(hp, "prop.value")
+        b = PB()
+        a.src = b
+        calls.clear()
+        b.value = 1
+        if calls != ["value"]:
+            ctx.violation("C09:property-link:not-followed",
+                          "the object handed out by the property after its "
+                          "change event is followed with %d call(s)"
+                          % len(calls), **case)
+            continue
+        try:
+            a.observe(hp, "prop.value", remove=True)
+        except Exception as exc:
+            ctx.violation("C09:property-link:removal-raises",
+                          "removal raised %r" % (exc,), **case)
+            continue
+        calls.clear()
+        b.value = 2
+        left = [n for n in (b._trait("value", 0)._notifiers(False) or [])]
+        if calls or left:
+            ctx.violation("C09:property-link:left-behind",
+                          "after the one registration was removed the "
+                          "handler is still called (%d) for the object "
+                          "reached through the property link; %d notifier(s) "
+                          "left on it" % (len(calls), len(left)), **case)
+        else:
+            ctx.outcome("object-collected")
     # 6. the function-level API with a dispatcher of the caller's own: a
     # bound method (a new but equal object at every access), a callable
     # instance, a partial; all counts k = 1..3 and every expression kind
